@@ -740,4 +740,98 @@ example : refusedTrace [.touch "BptkServer._ensure_instance_exists", .touch "Fil
 #print axioms C15_calls_refuse
 #print axioms C15_witness_call_order
 
+/-! ## Wave 6 — the method axis: the refusal holds for EVERY method dispatched to a protected view -/
+
+theorem lookup_mem (o : MethodObs) (m : String) (b : Bool) (h : o.lookup m = some b) : (m, b) ∈ o := by
+  induction o with
+  | nil => simp [List.lookup] at h
+  | cons x rest ih =>
+    obtain ⟨a, c⟩ := x
+    simp only [List.lookup] at h
+    split at h
+    · rename_i e
+      have : m = a := by simpa using e
+      cases h; simp [this]
+    · exact List.mem_cons_of_mem _ (ih h)
+
+theorem skipOf_good (o : MethodObs) (h : checkIgnoresMethod o = true) (m : String) : skipOf o m = false := by
+  unfold skipOf
+  cases hl : o.lookup m with
+  | none => rfl
+  | some b =>
+    have hm := lookup_mem o m b hl
+    unfold checkIgnoresMethod at h
+    rw [List.all_eq_true] at h
+    have := h (m, b) hm
+    simpa using this
+
+/-- a wrapper that does not consult the method: the method-aware dispatch IS the dispatch of the model -/
+theorem handleM_good {σ π : Type} (o : MethodObs) (h : checkIgnoresMethod o = true) (V : View σ π) (t : Table)
+    (tok : Option (List Char)) (s : σ) (r : Request π) : handleM o V t tok s r = handle V t tok s r := by
+  simp only [handleM, handle, serveRouteM, serveRoute, guardedM, skipOf_good o h, Bool.false_eq_true, if_false]
+
+def C15_fullM (t : Table) (o : MethodObs) : Prop :=
+  ∀ (σ π : Type) (V : View σ π) (τ : List Char) (s : σ) (r : Request π),
+    ¬ presents r τ →
+    (∀ rt, t.routes[r.route]? = some rt → isPublic rt = false) →
+    (handleM o V t (some τ) s r).2 ≥ 400 ∧ (handleM o V t (some τ) s r).1 = s
+
+theorem C15_fullM_iff (t : Table) (o : MethodObs) (h : checkIgnoresMethod o = true) : C15_fullM t o ↔ C15_full t := by
+  simp only [C15_fullM, C15_full, handleM_good o h]
+
+/-- **Every rule, every method.**  With all non-public rules protected and a wrapper that ignores the method:
+for every rule `i`, EVERY method string `m` — dispatched to the view (GET, POST, PUT, the HEAD Flask adds to GET
+rules, a non-automatic OPTIONS), or not (405) — every header not presenting the token, every state and every view
+behaviour: the state is unchanged, and the status is ≥ 400 unless it is Flask's own automatic OPTIONS answer
+(known finding `auto-options-200`). -/
+theorem C15_every_method (t : Table) (o : MethodObs) (hok : allProtected t = true) (hm : checkIgnoresMethod o = true)
+    {σ π : Type} (V : View σ π) (τ : List Char) (s : σ) (i : Nat) (rt : Route) (hr : t.routes[i]? = some rt)
+    (hp : isPublic rt = false) (m : String) (a : Option (List Char)) (f : String) (p : π)
+    (hnp : ¬ presents ({ route := i, method := m, auth := a, file := f, payload := p } : Request π) τ) :
+    (handleM o V t (some τ) s { route := i, method := m, auth := a, file := f, payload := p }).1 = s ∧
+    (¬ (m = "OPTIONS" ∧ rt.autoOptions = true) →
+      (handleM o V t (some τ) s { route := i, method := m, auth := a, file := f, payload := p }).2 ≥ 400) := by
+  rw [handleM_good o hm]
+  have hpub : ∀ rt', t.routes[i]? = some rt' → isPublic rt' = false := by
+    intro rt' h'; rw [hr] at h'; cases h'; exact hp
+  refine ⟨C15_state_unchanged t hok V τ s _ hnp hpub, ?_⟩
+  intro hno
+  unfold handle
+  simp only [hr]
+  split
+  · simp
+  · split
+    · rename_i ho
+      simp only [Bool.and_eq_true, beq_iff_eq] at ho
+      exact absurd ho hno
+    · exact (serveRoute_refuses t V τ s _ rt (routeOK_of_mem t hok _ rt hr) hp hnp).1
+
+/-- Negation witness `method-unchecked`: the wrapper lets method `m` through without the check and a protected
+non-public rule dispatches `m` (e.g. the automatically added HEAD): a request without header is served. -/
+theorem C15_witness_method (t : Table) (o : MethodObs) (i : Nat) (m : String) (h : methodSkippedAt t o i m = true) :
+    ¬ C15_fullM t o := by
+  intro hf
+  unfold methodSkippedAt at h
+  simp only [Bool.and_eq_true] at h
+  obtain ⟨hsk, h⟩ := h
+  cases hr : t.routes[i]? with
+  | none => simp [hr] at h
+  | some rt =>
+    simp only [hr, Bool.and_eq_true, Bool.not_eq_true'] at h
+    obtain ⟨⟨⟨⟨hp, hs⟩, hpr⟩, hmm⟩, hao⟩ := h
+    have := (hf Unit Unit (fun _ _ s => (s, 200)) [] ()
+      { route := i, method := m, auth := none, file := "", payload := () }
+      (by rintro ⟨h, hh, _⟩; simp at hh)
+      (by intro rt' hrt'; simp only [hr] at hrt'; cases hrt'; exact hp)).1
+    have hm' : m ∈ rt.methods := by simpa using hmm
+    simp [handleM, serveRouteM, guardedM, hr, hm', hao, hs, hpr, hsk] at this
+
+example : checkIgnoresMethod [("GET", false), ("HEAD", false), ("POST", false)] = true := by decide
+example : methodSkippedAt exTable [("GET", false), ("PUT", true)] 1 "PUT" = true := by decide
+
+#print axioms handleM_good
+#print axioms C15_fullM_iff
+#print axioms C15_every_method
+#print axioms C15_witness_method
+
 end Bptk.C15
